@@ -397,7 +397,7 @@ fn lookup(t: &mut Tracer, r: &mut Rng, cap: usize, part: usize, nparts: usize) {
             let dir = group[0].rsplit_once('/').map(|(d, _)| d.to_string());
             // (or the session's first zone in the wrong case: the data lookup is by file name and fails - and that failure must not
             // stick to the properly spelled name asked next)
-            let bad = match dir { Some(d) if gi % 4 == 0 => d, _ if gi % 6 == 2 => group[0].to_ascii_lowercase(), _ => "Nowhere/Land".to_string() };
+            let bad = match dir { Some(d) if gi % 4 == 0 => d, _ if gi % 6 == 2 => group[0].to_ascii_lowercase(), _ if gi % 10 == 6 => "tzdata.zi".to_string(), _ => "Nowhere/Land".to_string() };
             t.call("Tzdb.table", json!({"zone": bad}));
             t.call("Tzdb.offset", json!({"zone": bad, "t": pt(1_000_000_000, 0)}));
         }
